@@ -326,8 +326,9 @@ def R4(b):
       changing_exact / watching_exact / indexing_exact / spawning_exact / webhooks_exact
       prematch_covers_match    some handler matches  =>  ChangingRegistry.prematch(cause)  (the stealth gate never hides a match)
       callbacks_get_none_for_absent   the value handed to a per-value callback for an absent label/annotation/field is None
-    Known findings: F-C15-1 (value= of create/resume/delete handlers is also tested against the OLD state),
-                    F-C15-2 (field callbacks receive an internal sentinel instead of None for an absent field).
+    Known finding: F-C15-1 (value= of create/resume/delete handlers is also tested against the OLD state).
+    F-C15-2 (field callbacks received an internal sentinel instead of None for an absent field) was found by this check and is
+    fixed in /repo (e434359); its excuse is inactive and the clauses must hold without it.
     Bounded stand-in (labelled B): match() walks handler/cause object graphs, user callbacks and lazily built kwargs.
     """
     import kopf
